@@ -19,7 +19,8 @@ var c20NumTypes = []string{"int", "int32", "int64", "float32", "float64"}
 var c20NumOps = []string{"GT", "GTE", "LT", "LTE", "EQ", "OneOf"}
 var c20StrOps = []string{"Min", "Max", "Len", "HasPrefix", "HasSuffix", "Contains", "ContainsUpper", "ContainsDigit", "ContainsSpecial", "OneOf"}
 
-func C20_Jobs() []string {
+func C20_Jobs() []string { return append(c20_jobs0(), "json-records") }
+func c20_jobs0() []string {
 	var out []string
 	for _, t := range c20NumTypes {
 		for _, op := range c20NumOps {
@@ -436,6 +437,10 @@ func c20Regex(kind string) {
 }
 
 func C20_Run(job string) {
+	if job == "json-records" {
+		jrCheck("C20")
+		return
+	}
 	a, b, c, d := split3(job)
 	switch a {
 	case "num":
